@@ -261,11 +261,29 @@ def gen_case(rng: Rng, max_routers: int = 3) -> dict:
         if pairs:
             a, b = rng.choice(pairs)
             extra.append({"op": "ping", "src": a, "dst": t.nodes[b]["ip"], "count": rng.choice([1, 2])})
-    extra += via_host
+    # service exchange (NTP request / reply over UDP): one or two servers; routers permit the service or not
+    servers = rng.shuffle(hosts)[: rng.range(1, 2)] if len(hosts) >= 2 else []
+    for h in servers:
+        t.nodes[h]["flag"] = True
+    permit_mode = rng.choice(["all", "all", "some", "none"])
+    for r in routers_idx:
+        if permit_mode == "all" or (permit_mode == "some" and rng.chance(1, 2)):
+            t.nodes[r]["flag"] = True
+    notes["permit"] = permit_mode
+    clients = [h for h in hosts if h not in servers]
+    svc = []
+    for cl in clients:
+        for sv in servers:
+            svc.append({"op": "service", "src": cl, "dst": t.nodes[sv]["ip"]})
+    svc = rng.shuffle(svc)[:6]
+    if clients and hosts:
+        svc.append({"op": "service", "src": clients[0], "dst": "8.8.8.8"})
+    extra += via_host + svc + [dict(x) for x in svc[:2]]
     ops += rng.shuffle(extra) if rng.chance(1, 3) else extra
+    all_permit = all(t.nodes[r].get("flag") for r in routers_idx)
     for n in t.nodes:
         n.pop("used", None)
-    return {"nodes": t.nodes, "links": t.links, "ops": ops, "notes": notes, "icmp_ident_zero": rng.chance(1, 10),
+    return {"nodes": t.nodes, "links": t.links, "ops": ops, "notes": notes, "icmp_ident_zero": rng.chance(1, 10), "all_permit": all_permit,
             "consistent": routing in ("static", "default", "mixed", "shadowed", "none") and not notes.get("gw_is_host")}
 
 
@@ -307,12 +325,17 @@ def model_lines(case: dict) -> Tuple[List[str], List[int]]:
                 lines.append(f"defroute {n} {nd['default']}")
     for a, i, b, j in case["links"]:
         lines.append(f"link {a} {i} {b} {j}")
+    for n, nd in enumerate(case["nodes"]):
+        if nd.get("flag"):
+            lines.append(f"setflag {n}")
     lines.append("goodstate")
     op_pos = []
     for op in case["ops"]:
         op_pos.append(len(lines))
         if op["op"] == "ping":
             lines.append(f"ping {op['src']} {op['dst']} {op['count']}")
+        elif op["op"] == "service":
+            lines.append(f"service {op['src']} {op['dst']}")
         elif op["op"] in ("enable", "disable"):
             lines.append(f"{op['op']} {op['node']} {op['ifc']}")
         else:
@@ -443,6 +466,9 @@ def build_impl(case: dict, rec: Recorder):
             if nd["gw"]:
                 cfg["default_gateway"] = nd["gw"]
             o = Computer.from_config(config=cfg)
+            if nd.get("flag"):
+                from primaite.simulator.system.services.ntp.ntp_server import NTPServer
+                o.software_manager.install(NTPServer)
         elif nd["kind"] == "switch":
             o = Switch.from_config(config={"type": "switch", "hostname": f"s{n}", "num_ports": nd["ports"], "start_up_duration": 0})
         else:
@@ -452,6 +478,8 @@ def build_impl(case: dict, rec: Recorder):
                               for r in nd["routes"]]}
             if nd["default"]:
                 cfg["default_route"] = {"next_hop_ip_address": nd["default"]}
+            if nd.get("flag"):
+                cfg["acl"] = {1: {"action": "PERMIT", "protocol": "UDP", "src_port": "NTP", "dst_port": "NTP"}}
             o = Router.from_config(config=cfg)
         o.power_on()
         net.add_node(o)
@@ -524,6 +552,13 @@ def run_impl(case: dict) -> Tuple[List[str], List[dict]]:
             try:
                 if op["op"] == "ping":
                     res = "1" if objs[op["src"]].ping(op["dst"], pings=op["count"]) else "0"
+                elif op["op"] == "service":
+                    from ipaddress import IPv4Address
+                    cl = objs[op["src"]].software_manager.software["ntp-client"]
+                    cl.time = None
+                    cl.configure(IPv4Address(op["dst"]))
+                    cl.request_time()
+                    res = "1" if cl.time is not None else "0"
                 elif op["op"] == "enable":
                     ifaces[op["node"]][op["ifc"]].enable()
                 elif op["op"] == "disable":
@@ -547,7 +582,7 @@ def run_impl(case: dict) -> Tuple[List[str], List[dict]]:
                     toks.append(f"sw:{e[1]}:{id(e[2])}")
             if res == "OOF":
                 answers.append("OOF")
-            elif op["op"] in ("ping", "enable"):
+            elif op["op"] in ("ping", "enable", "service"):
                 answers.append(" ".join([res] + canon_events(toks)))
             else:
                 answers.append("ok")
@@ -627,6 +662,10 @@ def oracle(case: dict, records: List[dict]) -> Optional[dict]:
             down.add((op["node"], op["ifc"]))
         elif op["op"] == "enable":
             down.discard((op["node"], op["ifc"]))
+        elif op["op"] == "service" and case.get("consistent") and case.get("all_permit") and not down and r["res"] != "1":
+            servers_ip = {nd["ip"] for nd in case["nodes"] if nd["kind"] == "host" and nd.get("flag")}
+            if op["dst"] in servers_ip:
+                return {"kind": "permitted-exchange-failed", "op": k, "what": f"service request {op['src']} -> {op['dst']} got no reply on a consistent, fully-up, all-permitting topology"}
         elif op["op"] == "ping" and case.get("consistent") and not down and r["res"] != "1":
             hosts_ip = {nd["ip"]: n for n, nd in enumerate(case["nodes"]) if nd["kind"] == "host"}
             if op["dst"] in hosts_ip:
